@@ -54,6 +54,45 @@ static void ob_resume(H<T>& h)
     }
 }
 
+// ---- ob 10: resume with the built-in callback and a target precision (early stop) (C03, C12) -----------
+template <typename T, typename A>
+static void ob_resume_with_target(H<T>& h)
+{
+    world<T> w(h);
+    std::size_t const n = h.get("n", 2);
+    auto const calls = calls_pattern(h.get("cp", 3), n);
+    A::params(w);
+    T const target = w.h.input("target", 0.0, 1.0, true, false);
+    typename A::chk const base = A::fresh(w);
+    typename A::chk const full = A::run(w, calls, base, hep::callback<typename A::chk>(hep::callback_mode::silent, "", target));
+    std::string const text_full = ser(full);
+    for (std::size_t mask = 1; mask < (std::size_t(1) << n); ++mask)
+    {
+        if (mask & 1) continue;   // interruption points between iterations only
+        typename A::chk cur = base;
+        bool ok = true, stopped = false;
+        std::size_t i = 0;
+        while (i < n && ok && !stopped)
+        {
+            if (mask & (std::size_t(1) << i))
+            {
+                cur = reload<T, A>(h, ser(cur), "interrupted_checkpoint", ok);
+                if (!ok) break;
+            }
+            std::size_t j = i + 1;
+            while (j < n && !(mask & (std::size_t(1) << j))) ++j;
+            std::vector<std::size_t> seg(calls.begin() + i, calls.begin() + j);
+            std::size_t const before = cur.results().size();
+            // every resumption uses a newly constructed callback, as a restarted program does
+            cur = A::run(w, seg, cur, hep::callback<typename A::chk>(hep::callback_mode::silent, "", target));
+            stopped = cur.results().size() - before < seg.size();   // the target was reached: nothing left to resume
+            i = j;
+        }
+        h.check("C03,C12|resume.with_target_precision_final_text_identical_to_uninterrupted_run",
+            ok ? texts_identical<T>(h, text_full, ser(cur)) : h.truth(false));
+    }
+}
+
 // ---- ob 3: rollback (C15) -------------------------------------------------------------------------
 template <typename T, typename A>
 static void ob_rollback(H<T>& h)
@@ -72,6 +111,18 @@ static void ob_rollback(H<T>& h)
         full = reload<T, A>(h, text_full, "checkpoint", ok);
         h.check("C15|rollback.checkpoint_read_back_from_text", h.truth(ok));
         if (!ok) return;
+    }
+    if (h.get("hist", 0) != 0 && n >= 2)
+    {
+        // history: run(1); write + read; resume(n-1); rollback(k)
+        std::vector<std::size_t> first(calls.begin(), calls.begin() + 1), rest(calls.begin() + 1, calls.end());
+        typename A::chk part = A::run(w, first, base, always_true<typename A::chk>());
+        bool ok = false;
+        typename A::chk re = reload<T, A>(h, ser(part), "checkpoint", ok);
+        h.check("C15|rollback.checkpoint_read_back_from_text", h.truth(ok));
+        if (!ok) return;
+        full = A::run(w, rest, re, always_true<typename A::chk>());
+        h.check("C15|rollback.resumed_run_equals_the_uninterrupted_one", texts_identical<T>(h, text_full, ser(full)));
     }
     for (std::size_t k = 0; k <= n + 1; ++k)
     {
@@ -465,6 +516,7 @@ static void by_ob(H<T>& h)
     case 6: ob_modes<T, A>(h); break;
     case 7: ob_state<T, A>(h); break;
     case 8: ob_poison<T, A>(h); break;
+    case 10: ob_resume_with_target<T, A>(h); break;
     }
 }
 
